@@ -179,7 +179,12 @@ where
     ev.rec_v(&mut || tb(w.rotate_left(n).0));
     ev.rec_v(&mut || tb(w.rotate_right(n).0));
     ev.rec_v(&mut || w.to_bits().to_u128());
-    ev.rec_v(&mut || tb(W::<F>::from_bits(<F::Bits as BitsIo>::from_u128(a)).0));
+    ev.rec_v(&mut || {
+        // from_bits, and the From<F> wrapper, must agree on the same bits
+        let w1 = W::<F>::from_bits(<F::Bits as BitsIo>::from_u128(a));
+        let w2: W<F> = fb::<F>(a).into();
+        if w1 == w2 { tb(w1.0) } else { !tb(w1.0) }
+    });
     ev.rec_v(&mut || tb(W::<F>::min_value().0));
     ev.rec_v(&mut || tb(W::<F>::max_value().0));
     ev.rec_v(&mut || W::<F>::int_nbits() as u128);
